@@ -164,9 +164,13 @@ impl<'a, F> Entries<'a, F> {
         parent_path: &Path,
         mut current_id: u32,
     ) {
-        while current_id != consts::NO_STREAM {
+        // A left spine cannot be longer than the directory; if it is, the
+        // sibling links form a cycle (see `next`), so stop following them.
+        let mut remaining = minialloc.num_dir_entries();
+        while current_id != consts::NO_STREAM && remaining > 0 {
             self.stack.push((parent_path.to_path_buf(), current_id, true));
             current_id = minialloc.dir_entry(current_id).left_sibling;
+            remaining -= 1;
         }
     }
 }
